@@ -1,4 +1,4 @@
-import Gengo.Gen.Code
+import Gengo.Gen.Code.C12
 import Gengo.Model.Tags
 /-!
 C12, tie by translation: the Lean definitions that `go2lean` regenerates from `pkg/types/comments.go` on every run
